@@ -92,3 +92,9 @@ Proof.
   destruct (spec_flag_of (ctag c)) as [[fc fd]|]; [|discriminate].
   apply andb_prop in H as [H1 H2]. apply Bool.eqb_prop in H1. apply Bool.eqb_prop in H2. now subst.
 Qed.
+
+(* ---------- buffer: the tag list the receive buffer looks for ---------- *)
+(* Buffer().allowed_tags are exactly the registered message tags, and none contains '<' *)
+Definition reg_ok_buffer (R : registry) : bool :=
+  list_eqb str_eqb (rbuffer_tags R) (map ctag (rmsgs R)) &&
+  forallb (fun t => negb (mem_str [60%N] (map (fun c => [c]) t))) (rbuffer_tags R).
